@@ -42,7 +42,14 @@ fn on_alloc(addr: usize, size: usize) {
     }
 }
 fn on_release(addr: usize, size: usize) {
-    let s = unsafe { std::slice::from_raw_parts(addr as *const u8, size) };
+    // the block as it was handed out (a release with a smaller layout still gives all of it back)
+    let n = std::cmp::min(NALLOC.load(Ordering::SeqCst), MAXEV);
+    let mut full = size;
+    for i in (0..n).rev() {
+        let (a, sz) = unsafe { ALLOCS[i] };
+        if a == addr { full = std::cmp::max(full, sz); break; }
+    }
+    let s = unsafe { std::slice::from_raw_parts(addr as *const u8, full) };
     let nz = s.iter().filter(|b| **b != 0).count();
     let i = NREL.fetch_add(1, Ordering::SeqCst);
     if i < MAXEV {
@@ -411,6 +418,10 @@ pub fn run_case(case: &Value, probe: bool, progress: *mut u32) -> Vec<Value> {
     let lck0 = vmlck_kb();
     let mut slots: Vec<Slot> = (0..3).map(|_| Slot { reg: None, shadow: vec![] }).collect();
     let mut probed: std::collections::HashSet<(u64, usize, bool)> = Default::default();
+    // Some(reason) once the code's allocation behaviour no longer follows the model: from then on only the
+    // model-independent oracles decide (type state vs kernel, wipe at release, residue at the end)
+    let mut drift: Option<Value> = None;
+    let mut nrel_seen = 0usize;
 
     for (si, st) in steps.iter().enumerate().skip(1) {
         unsafe { *progress = si as u32 };
@@ -552,60 +563,111 @@ pub fn run_case(case: &Value, probe: bool, progress: *mut u32) -> Vec<Value> {
         let obs = &st["obs"];
         let al = allocs();
         let mal = obs["allocs"].as_array().cloned().unwrap_or_default();
-        if al.len() != mal.len() {
-            fail!("number of allocations differs from the model", {"got": al.len(), "model": mal.len()});
-            return fails;
-        }
         let maps = smaps();
-        for (ai, ma) in mal.iter().enumerate() {
-            let (addr, size) = al[ai];
-            let cap = ma["cap"].as_u64().unwrap() as usize;
-            if size != cap {
-                fail!("MODEL: allocation size differs from the modelled capacity", {"alloc": ai + 1, "got": size, "model": cap});
-                return fails;
-            }
-            let live = ma["live"].as_bool().unwrap();
-            // a released block whose address range was handed out again is no longer observable
-            let pages = ma["pages"].as_array().unwrap();
-            let lo = addr - pg;
-            let hi = lo + pages.len() * pg;
-            let superseded = !live && al.iter().enumerate().any(|(j, (a2, s2))| {
-                j > ai && { let l2 = a2 - pg; let h2 = l2 + (s2 + (pg - s2 % pg)) + 2 * pg; l2 < hi && lo < h2 }
-            });
-            if superseded { continue; }
-            for (pi, pc) in pages.iter().enumerate() {
-                let want = pc.as_u64().unwrap();
-                let got = page_code(&maps, lo + pi * pg);
-                if got == 99 && !live { continue; } // returned to the OS
-                if got != want {
-                    let which = if pi == 0 { "guard page before".to_string() } else if pi == pages.len() - 1 { "guard page after".to_string() } else { format!("data page {}", pi) };
-                    let lenclass = len_class(obs, ai + 1, pg);
-                    fail!(format!("page state differs: {} {} (region {}) after {}", which, if live { "of a live region" } else { "of a released block" }, lenclass, name),
-                          {"alloc": ai + 1, "page": pi, "got": got, "model": want, "cap": cap, "codes": "0 rw,1 r,2 none,+4 locked,99 unmapped"});
+        if drift.is_none() && al.len() != mal.len() {
+            drift = Some(json!({"step": si, "op": op, "what": "number of allocations differs from the model", "got": al.len(), "model": mal.len()}));
+        }
+        if drift.is_none() {
+            for (ai, ma) in mal.iter().enumerate() {
+                let cap = ma["cap"].as_u64().unwrap() as usize;
+                if al[ai].1 != cap {
+                    drift = Some(json!({"step": si, "op": op, "what": "allocation size differs from the modelled capacity", "alloc": ai + 1, "got": al[ai].1, "model": cap}));
+                    break;
                 }
             }
         }
-        // release events
         let rl = rels();
         let mrl = obs["rel"].as_array().cloned().unwrap_or_default();
-        if rl.len() != mrl.len() {
-            fail!("number of releases differs from the model", {"got": rl.len(), "model": mrl.len()});
-            return fails;
-        }
-        for (ri, mr) in mrl.iter().enumerate() {
-            let (addr, size, nz) = rl[ri];
-            let ma = mr[0].as_u64().unwrap() as usize;
-            let msz = mr[1].as_u64().unwrap() as usize;
-            if al.get(ma - 1).map(|x| x.0) != Some(addr) || size != msz {
-                fail!("release event differs from the model", {"index": ri, "got_size": size, "model_size": msz, "model_alloc": ma});
+        if drift.is_none() {
+            if rl.len() != mrl.len() {
+                drift = Some(json!({"step": si, "op": op, "what": "number of releases differs from the model", "got": rl.len(), "model": mrl.len()}));
+            } else {
+                for (ri, mr) in mrl.iter().enumerate() {
+                    let ma = mr[0].as_u64().unwrap() as usize;
+                    let msz = mr[1].as_u64().unwrap() as usize;
+                    if al.get(ma - 1).map(|x| x.0) != Some(rl[ri].0) || rl[ri].1 != msz {
+                        drift = Some(json!({"step": si, "op": op, "what": "release event differs from the model", "index": ri, "got_size": rl[ri].1, "model_size": msz}));
+                        break;
+                    }
+                }
             }
-            if nz != 0 && ri + 1 > steps[si - 1]["obs"]["rel"].as_array().map(|a| a.len()).unwrap_or(0) {
-                fail!(format!("released memory not wiped: {} by {}", if nz > 0 { "non-zero bytes reach the allocator" } else { "" }, name),
-                      {"alloc": ma, "size": size, "nonzero_bytes": nz});
+        }
+        // C15, model-independent: whatever is released must be all zero
+        for ri in nrel_seen..rl.len() {
+            let (_, size, nz) = rl[ri];
+            if nz != 0 {
+                fail!(format!("released memory not wiped: non-zero bytes reach the allocator by {}", name), {"size": size, "nonzero_bytes": nz});
+            }
+        }
+        nrel_seen = rl.len();
+        // the model's page table of every allocation, live or released
+        if drift.is_none() {
+            for (ai, ma) in mal.iter().enumerate() {
+                let (addr, _size) = al[ai];
+                let cap = ma["cap"].as_u64().unwrap() as usize;
+                let live = ma["live"].as_bool().unwrap();
+                // a released block whose address range was handed out again is no longer observable
+                let pages = ma["pages"].as_array().unwrap();
+                let lo = addr - pg;
+                let hi = lo + pages.len() * pg;
+                let superseded = !live && al.iter().enumerate().any(|(j, (a2, s2))| {
+                    j > ai && { let l2 = a2 - pg; let h2 = l2 + (s2 + (pg - s2 % pg)) + 2 * pg; l2 < hi && lo < h2 }
+                });
+                if superseded { continue; }
+                for (pi, pc) in pages.iter().enumerate() {
+                    let want = pc.as_u64().unwrap();
+                    let got = page_code(&maps, lo + pi * pg);
+                    if got == 99 && !live { continue; } // returned to the OS
+                    if got != want {
+                        let which = if pi == 0 { "guard page before".to_string() } else if pi == pages.len() - 1 { "guard page after".to_string() } else { format!("data page {}", pi) };
+                        let lenclass = len_class(obs, ai + 1, pg);
+                        fail!(format!("page state differs: {} {} (region {}) after {}", which, if live { "of a live region" } else { "of a released block" }, lenclass, name),
+                              {"alloc": ai + 1, "page": pi, "got": got, "model": want, "cap": cap, "codes": "0 rw,1 r,2 none,+4 locked,99 unmapped"});
+                    }
+                }
+            }
+        }
+        // C14, model-independent: every page holding the bytes of a live region agrees with its type
+        for hh in 1..=2usize {
+            if let Some(r) = &slots[hh].reg {
+                let (w, pm, lm) = r.state();
+                if let Some(v) = r.view() {
+                    if v.is_empty() { continue; }
+                    let ptr = v.as_ptr() as usize;
+                    let want = if w == "Plain" { 0 } else { (if pm == "RW" { 0 } else { 1 }) + (if lm == "Locked" { 4 } else { 0 }) };
+                    let lenclass = if v.len() % pg == 1 { "len≡1 mod page" } else if v.len() % pg == 0 { "len≡0 mod page" } else { "len other" };
+                    for k in 0..((v.len() + pg - 1) / pg) {
+                        let got = page_code(&maps, ptr + k * pg);
+                        if got != want {
+                            fail!(format!("type state vs kernel: data page {} (region {}) is not what the type says after {}", k + 1, lenclass, name),
+                                  {"handle": hh, "type": [w, pm, lm], "got": got, "want": want, "len": v.len()});
+                        }
+                    }
+                    if page_code(&maps, ptr - 1) & 3 != 2 {
+                        fail!(format!("type state vs kernel: no inaccessible guard page before the data after {}", name), {"handle": hh});
+                    }
+                    if let Some((_, size)) = al.iter().rev().find(|(a, _)| *a == ptr) {
+                        // some page starting no more than one page beyond the end of the allocation is inaccessible
+                        let end = ptr + size;
+                        let first_after = (end + pg - 1) / pg * pg;
+                        let ok = page_code(&maps, first_after) & 3 == 2 || (end % pg == 0 && page_code(&maps, first_after + pg) & 3 == 2);
+                        if !ok {
+                            fail!(format!("type state vs kernel: no inaccessible guard page within one page after the allocation after {}", name), {"handle": hh, "size": size});
+                        }
+                    }
+                }
             }
         }
         // regions: type state, length, contents
         for hh in 1..=2usize {
+            if drift.is_some() {
+                if let Some(r) = &slots[hh].reg {
+                    if let Some(v) = r.view() {
+                        if v != &slots[hh].shadow[..] { fail!(format!("contents changed by {}", name), {"len": v.len()}); }
+                    }
+                }
+                continue;
+            }
             let mr = &obs["regs"][hh - 1];
             let alive = mr["kind"].as_str() != Some("dead");
             match (&slots[hh].reg, alive) {
@@ -638,7 +700,7 @@ pub fn run_case(case: &Value, probe: bool, progress: *mut u32) -> Vec<Value> {
             }
         }
         // ---- fault probes: what the page table says must be what an access experiences
-        if probe {
+        if probe && drift.is_none() {
             for (ai, ma) in mal.iter().enumerate() {
                 if !ma["live"].as_bool().unwrap() { continue; }
                 let (addr, _size) = al[ai];
@@ -690,15 +752,18 @@ pub fn run_case(case: &Value, probe: bool, progress: *mut u32) -> Vec<Value> {
     if rl.len() != al.len() {
         fails.push(json!({"key": "allocation never released after the last drop", "step": steps.len(), "op": ["final"], "info": {"allocs": al.len(), "releases": rl.len()}}));
     }
-    for (i, (_, size, nz)) in rl.iter().enumerate() {
-        let already = steps.last().and_then(|s| s["obs"]["rel"].as_array()).map(|a| a.len()).unwrap_or(0);
-        if i >= already && *nz != 0 {
+    for i in nrel_seen..rl.len() {
+        let (_, size, nz) = rl[i];
+        if nz != 0 {
             fails.push(json!({"key": "released memory not wiped: non-zero bytes reach the allocator by final drop", "step": steps.len(), "op": ["final"], "info": {"size": size, "nonzero_bytes": nz}}));
         }
     }
     let lck1 = vmlck_kb();
     if lck1 != lck0 {
         fails.push(json!({"key": "residue after the last drop: VmLck not back to baseline", "step": steps.len(), "op": ["final"], "info": {"before_kb": lck0, "after_kb": lck1}}));
+    }
+    if let Some(d) = drift {
+        fails.push(json!({"key": "DRIFT: the code's allocation behaviour no longer follows Protected.tla", "step": d["step"], "op": d["op"], "info": d}));
     }
     fails
 }
